@@ -62,8 +62,12 @@ let build_inst w =
   let ws = List.sort (fun a b -> compare a.id b.id) w.workers in
   { i_nres = n_of_int w.n_res; i_now = N0;
     i_workers = List.map (fun m -> { w_id = n_of_int m.id; w_res = m.res; w_free = m.free;
-                                     w_assigned = List.map n_of_int m.assigned; w_blocked = []; w_term = None }) ws;
-    i_classes = List.map (fun e -> { rc_entries = e; rc_min_time = N0 }) w.classes;
+                                     w_assigned = List.map n_of_int m.assigned;
+                                     w_blocked = List.filter_map (fun (rq, v) -> if v = 0 then Some (n_of_int rq) else None) m.blk;
+                                     w_term = (match m.tl with Some t -> Some (n_of_int t) | None -> None) }) ws;
+    i_classes = List.map (fun vs -> match vs with
+        | v :: _ -> { rc_entries = v.v_entries; rc_min_time = v.v_min_time }
+        | [] -> { rc_entries = []; rc_min_time = N0 }) w.vclasses;
     i_queues = w.queues }
 
 let var_s = function
@@ -73,6 +77,7 @@ let var_s = function
 
 let prio_of_user p = from_user_priority (z_of_int p)
 
+let trace_mode = ref ""
 let out = Buffer.create 65536
 let pr s = Buffer.add_string out s; Buffer.add_char out '\n'
 
@@ -230,6 +235,7 @@ let process_trace header lines =
                  pr (Printf.sprintf "= BATCH rq=%d size=%d limit=%d lr=%d blk=%d cuts=%s" (int_of_n b.b_rq)
                        (int_of_n b.b_size) (int_of_n b.b_limit) (if b.b_lr then 1 else 0) (if b.b_blk then 1 else 0) cuts);
                  if b.b_cuts <> [] then tag "cuts";
+                 if List.length b.b_cuts >= 32 then tag "cuts-pruned";
                  if b.b_lr then tag "limit-reached") bs;
              List.iter (fun h -> List.iter (fun l ->
                  if h.b_rq <> l.b_rq then
@@ -270,7 +276,8 @@ let process_trace header lines =
                   w.solution <- Some s;
                   let ok = feasible m s && (Array.length arr = List.length vars || get "solved" = "0") in
                   w.solved_ok <- ok;
-                  pr (Printf.sprintf "= FEASIBLE %d" (if ok then 1 else 0));
+                  if get "solved" = "0" then (w.solved_ok <- true; tag "no-solution"; pr "= FEASIBLE -")
+                  else pr (Printf.sprintf "= FEASIBLE %d" (if ok then 1 else 0));
                   let counts = List.concat_map (fun v -> match v with
                       | VX (wk, rq) -> let c = int_of_z (s v) in if c > 0 then [ (int_of_n rq, int_of_n wk, c) ] else []
                       | _ -> []) vars in
@@ -319,11 +326,20 @@ let process_trace header lines =
                monitors := "M C05 FAIL solution-infeasible-for-model-rows" :: !monitors;
                monitors := "M C15 FAIL solution-violates-model-rows the real solution is not a feasible point of the row system the model derives (cut / blocker / resource rows)" :: !monitors
              end;
-             (* C15 *)
-             if w.optimal && ok then begin
+             (* C15: the statement's domain is up to 8 priority levels, no worker time limits / blocked
+                classes; outside of it (wide mode: many levels -> cut pruning, timed / blocked workers)
+                inversions are only tagged *)
+             let levels = List.sort_uniq compare (List.map (fun (_, (_, p)) -> p) w.tasks) in
+             let in_domain = List.length levels <= 8
+                             && not (List.exists (fun m -> m.tl <> None || m.blk <> []) w.workers) in
+             if w.optimal && ok && not in_domain then begin
+               if inversions i d <> [] then tag "inversion-out-of-domain"
+             end
+             else if w.optimal && ok then begin
                let invs = inversions i d in
                if invs <> [] then begin
                  tag "inversion";
+                 if !trace_mode = "exact" then tag "exact-candidate-class-inversion";
                  let seen = ref [] in
                  List.iter (fun (((t, wk), u) as x) ->
                      let v = classify i bs s d x in
@@ -355,7 +371,7 @@ let process_trace header lines =
         | 'C' -> (match split body with "res" :: n :: _ -> w.n_res <- ios n | _ -> ())
         | 'O' -> cur := body; handle_op (split body) line
         | '=' -> (match split body with
-            | "FEASIBLE" :: v :: _ -> impl_feasible := Some (v = "1")
+            | "FEASIBLE" :: v :: _ -> if v <> "-" then impl_feasible := Some (v = "1")
             | _ -> ())
         | _ -> ()
       end) lines;
@@ -363,6 +379,8 @@ let process_trace header lines =
   if List.length w.classes >= 2 then tag "multi-class";
   if w.n_res >= 2 then tag "multi-resource";
   if List.exists (fun m -> m.assigned <> []) w.workers then tag "busy-worker";
+  if w.decided && List.exists (fun m -> m.tl <> None) w.workers && not (List.mem "variants" !tags) then tag "timed-workers";
+  if w.decided && List.exists (fun m -> m.blk <> []) w.workers && not (List.mem "variants" !tags) then tag "blocked-class";
   if List.length w.workers >= 2 then tag "multi-worker";
   (* non-trivial: an optimal solve that dispatched something in an instance where priorities interact (a cut exists) *)
   if List.mem "cuts" !tags && List.mem "dispatch" !tags && w.optimal then tag "nontrivial";
@@ -376,6 +394,7 @@ let () =
        let line = input_line stdin in
        if String.length line >= 6 && String.sub line 0 6 = "TRACE " then begin
          header := (match split line with _ :: id :: _ -> "TRACE " ^ id | _ -> line);
+         trace_mode := (match split line with _ :: _ :: m :: _ -> m | _ -> "");
          acc := []
        end
        else if line = "END" then begin
